@@ -272,7 +272,7 @@ func c02Leaves() []model.Leaf {
 			add(l)
 		}
 		for _, cmp := range []string{"like", "ilike"} {
-			for _, p := range []string{consts[0], "%", "%" + consts[2], "A%", "X%", ".*", "\u0131X", "a\u017f%", "%\u017fR"} {
+			for _, p := range []string{consts[0], "%", "%" + consts[2], "A%", "X%", ".*", "\u0131X", "a\u017f%", "%\u017fR", "A.*", "a.?"} {
 				l := lf(col, cmp, "string")
 				l.S = p
 				add(l)
